@@ -49,6 +49,31 @@ func add(check, in, what string) {
 	if len(res.Failures) < 5 {
 		res.Failures = append(res.Failures, failure{check, in, what})
 	}
+	if len(res.Failures) >= 5 {
+		// enough failing inputs: stop here (a tree on which every case waits for a blocked call
+		// would otherwise take hours); the run is then no longer exhaustive
+		res.Exhausted = false
+		finish()
+	}
+}
+
+var (
+	outPath   string
+	startTime time.Time
+)
+
+func finish() {
+	res.WallS = time.Since(startTime).Seconds()
+	b, _ := json.MarshalIndent(res, "", " ")
+	if outPath != "" {
+		os.WriteFile(outPath, b, 0644)
+	} else {
+		fmt.Println(string(b))
+	}
+	if len(res.Failures) > 0 {
+		os.Exit(1)
+	}
+	os.Exit(0)
 }
 
 func payload(n int) []byte {
@@ -102,7 +127,8 @@ func main() {
 	out := flag.String("out", "", "result file")
 	flag.Parse()
 	_ = input
-	start := time.Now()
+	startTime = time.Now()
+	outPath = *out
 	res.Exhausted = true
 	sizes := []int{0, 1, 2, 11, 12, 13, 15, 16, 17, 31, 32, 33}
 	for n := 48; n <= *max; n += 16 {
@@ -249,14 +275,5 @@ func main() {
 			}
 		}
 	}
-	res.WallS = time.Since(start).Seconds()
-	b, _ := json.MarshalIndent(res, "", " ")
-	if *out != "" {
-		os.WriteFile(*out, b, 0644)
-	} else {
-		fmt.Println(string(b))
-	}
-	if len(res.Failures) > 0 {
-		os.Exit(1)
-	}
+	finish()
 }
